@@ -1,22 +1,30 @@
 import LunarVerif.Base.Proto
 import LunarVerif.Spec.C02
+import LunarVerif.Model.C02Mixed
 /-! Driver for C02: `lvdriver_c02 run` (model outputs) / `lvdriver_c02 judge` (Spec on impl outputs). -/
 open LunarVerif LunarVerif.Proto LunarVerif.C02
 
 /-- `request_expiration_sec` → ns, plus `timeDeltaForDeadRequestDecision` (10 ms). -/
 def expNs (sec : Nat) : Nat := sec * 1000000000 + 10000000
 
+def parseParent (n : Nat) (par : String) : Option (Option Nat) :=
+  if par == "-" then some none else
+  match par.toNat? with
+  | some pi => if pi < n then some (some pi) else none
+  | none => none
+
 def parseQuota (n : Nat) (w : String) : Option QCfg :=
   match w.splitOn "," with
   | ["f"] => some ⟨.fixed, 0, 0, none⟩
+  | ["f", par] => do
+    let p ← parseParent n par
+    if p.isNone then none
+    pure ⟨.fixed, 0, 0, p⟩
   | ["c", mx, ex, par] => do
     let mx ← mx.toNat?
     let ex ← ex.toNat?
     if ex == 0 then none
-    let p ← if par == "-" then some none else (par.toNat?).map some
-    match p with
-    | some pi => if pi < n then pure () else none
-    | none => pure ()
+    let p ← parseParent n par
     pure ⟨.conc, mx, expNs ex, p⟩
   | _ => none
 
@@ -40,8 +48,8 @@ def parseCfg (ws : List String) : Option Cfg := do
   let order ← (kv ws "order").bind (parseOrder · qs.length)
   if gc == 0 || qs.isEmpty then none
   let cfg : Cfg := ⟨qs, order, early != 0, t0, gc * 1000000000⟩
-  -- parents must be concurrent quotas
-  if cfg.wf then pure cfg else none
+  -- `wf` configurations are the theorems' scope; mixed trees run on the extension model only
+  if cfg.wf || Mixed.okCfg cfg then pure cfg else none
 
 def fmtMembers (cfg : Cfg) (mem : Nat → List Member) : String :=
   let per := (List.range cfg.quotas.length).map fun q =>
@@ -70,25 +78,43 @@ def parseEvent (ws : List String) : Option Event :=
 
 structure RunSt where
   cfg : Option Cfg := none
-  s : S := S.init ⟨[], [], false, 0, 1⟩
+  s : S := S.init ⟨[], [], false, 0, 1⟩            -- proved model (used when `cfg.wf`)
+  x : Mixed.MS := Mixed.MS.init ⟨[], [], false, 0, 1⟩  -- extension model (always run)
 
 def runStep (st : RunSt) (line : String) : RunSt × String :=
   match words line with
   | ["case", id] => ({}, s!"case {id}")
   | "stress-incdec" :: ws =>
-    -- search-only stress case: the only model statement is "never panics" (see Properties: all schedules)
+    -- search-only stress cases: the model statements behind them are the all-schedules theorems (never panics;
+    -- never more than `max` in flight; every serial order of arrivals at max-1 admits exactly one; all ended ⇒ empty)
     match kvNat ws "decs", kvNat ws "ms" with
     | some d, some ms => if 1 ≤ d && d ≤ 16 && 1 ≤ ms && ms ≤ 5000 then (st, "ok") else (st, "bad-op")
     | _, _ => (st, "bad-op")
+  | "stress-arrive" :: ws =>
+    match kvNat ws "max", kvNat ws "workers", kvNat ws "rounds" with
+    | some m, some w, some r =>
+      if 1 ≤ m && m ≤ 16 && 2 ≤ w && w ≤ 64 && 1 ≤ r && r ≤ 100000 then (st, "ok") else (st, "bad-op")
+    | _, _, _ => (st, "bad-op")
+  | "stress-churn" :: ws =>
+    match kvNat ws "max", kvNat ws "workers", kvNat ws "txns" with
+    | some m, some w, some r =>
+      if 1 ≤ m && m ≤ 16 && 2 ≤ w && w ≤ 64 && 1 ≤ r && r ≤ 100000 then (st, "ok") else (st, "bad-op")
+    | _, _, _ => (st, "bad-op")
   | "cfg" :: ws =>
     match st.cfg, parseCfg ws with
-    | none, some cfg => ({ cfg := some cfg, s := S.init cfg }, "ok")
+    | none, some cfg => ({ cfg := some cfg, s := S.init cfg, x := Mixed.MS.init cfg }, "ok")
     | _, _ => (st, "bad-op")
   | ws =>
     match st.cfg, parseEvent ws with
     | some cfg, some e =>
-      let p := event cfg st.s e
-      ({ st with s := p.1 }, s!"{fmtVerdict p.2} {fmtMembers cfg p.1.members}")
+      let px := Mixed.event cfg st.x e
+      let ansX := s!"{fmtVerdict px.2} {fmtMembers cfg px.1.s.members}"
+      if cfg.wf then
+        let p := event cfg st.s e
+        let ans := s!"{fmtVerdict p.2} {fmtMembers cfg p.1.members}"
+        -- the proved model answers; the extension model must agree with it on `wf` configurations
+        ({ st with s := p.1, x := px.1 }, if ans == ansX then ans else s!"internal-mismatch proved:{pctEnc ans} mixed:{pctEnc ansX}")
+      else ({ st with x := px.1 }, ansX)
     | _, _ => (st, "bad-op")
 
 /-! ### judge -/
@@ -131,6 +157,10 @@ def judgeStep (s : JudgeSt) (op out : String) : JudgeSt :=
   match words op with
   | "stress-incdec" :: _ =>
     if out == "ok" then s else { s with verdict := some ("fail - concurrent-Inc-Dec-of-one-request-id:" ++ pctEnc out) }
+  | "stress-arrive" :: _ =>
+    if out == "ok" then s else { s with verdict := some ("fail - simultaneous-arrivals-exceed-max:" ++ pctEnc out) }
+  | "stress-churn" :: _ =>
+    if out == "ok" then s else { s with verdict := some ("fail - churn-bound-or-release-broken:" ++ pctEnc out) }
   | "cfg" :: ws =>
     match s.cfg, parseCfg ws with
     | none, some cfg =>
